@@ -4,6 +4,7 @@
   (`iterArray`, `rangeInts`, `getArray`, `forloopObj`, `tablerowObj`, `loopItems`, `renderList`).
 -/
 import LiquidModel.Lemmas.Shape
+import LiquidModel.Lemmas.ForNode
 namespace Liquid.C05
 open Liquid
 
@@ -250,5 +251,40 @@ theorem C05_body_goes_on (f : Node → M Unit) (n : Node) (r : Tmpl) (rt rt' : R
 example : selectSpec [iV 1, iV 2, iV 3, iV 4, iV 5] (some 4) 3 false = [iV 4, iV 5] := by rfl
 example : iterArray [iV 1, iV 2, iV 3, iV 4, iV 5] (some 2) 1 true = [iV 3, iV 2] := by rfl
 example : (Rt.build []).regs.interrupt = none := rfl
+
+/-! ### end to end -/
+
+/-- **The whole tag.** For every collection expression, `limit:`/`offset:` attributes, direction,
+runtime and sink: `{% for x in R limit:l offset:o [reversed] %}{{ x }}{% endfor %}` succeeds and
+appends exactly the renderings of `drop o |> take l` of the collection (reversed on demand), in
+order, once each — through attribute evaluation, `iter_array`, the loop driver, the per-iteration
+frame, the lookup of `x` in it, the output tag and the interrupt register; nothing is written when
+the selection is empty. -/
+theorem C05_for_prints_window (fuel : Nat) (env : Env) (x : Str) (rng : RangeE) (limit offset : Option Expr)
+    (rev : Bool) (rt : Rt) (w : W) (arr : List V) (lim off : Option Nat)
+    (hr : rng.eval rt.layers = .ok arr) (hl : evalAttr rt.layers limit = .ok lim)
+    (ho : evalAttr rt.layers offset = .ok off)
+    (hi : rt.regs.interrupt = none) (hb : w.budget = none) :
+    ∃ rt' w', renderN (fuel + 2) env (.for_ x rng limit offset rev [.output (.var x []) []] none) rt w
+        = (.ok (), rt', w') ∧
+      w'.text = w.text ++ ((selectSpec arr lim (off.getD 0) rev).map V.render).flatten := by
+  rw [← C05_window]
+  generalize hitems : iterArray arr lim (off.getD 0) rev = items
+  cases items with
+  | nil =>
+    refine ⟨rt, w, ?_, by simp⟩
+    simp [renderN, M.run_bind, hr, hl, ho, hitems]
+  | cons v r =>
+    obtain ⟨rt', w', h, _, _, ht⟩ := ForNode.loop_print fuel env x (v :: r).length
+      ((rt.layers.tryGet [.str "forloop".toList]).getD .nil) (v :: r) 0 rt w hi hb
+    refine ⟨rt', w', ?_, ht⟩
+    simp only [renderN, M.run_bind, M.run_getSt, M.run_lift, hr, hl, ho, hitems]
+    exact h
+
+/-- non-vacuity: a literal three-element array with `offset:1` on a fresh runtime -/
+example : ∃ rt' w', renderN 2 {} (.for_ "x".toList (.arr (.lit (.arr [iV 1, iV 2, iV 3]))) none (some (.lit (iV 1))) false
+      [.output (.var "x".toList []) []] none) (Rt.build []) {} = (.ok (), rt', w') ∧ w'.text = "23".toList := by
+  refine ⟨_, _, rfl, ?_⟩
+  decide
 
 end Liquid.C05
